@@ -25,9 +25,12 @@ from concurrent.futures import ThreadPoolExecutor
 VERIF = os.path.dirname(os.path.dirname(os.path.abspath(__file__)))
 SPEC = os.path.join(VERIF, "spec")
 MC = os.path.join(VERIF, "mc")
-WORK = os.path.join(VERIF, ".work")
-OUT = os.path.join(VERIF, "out")
-EVID = os.path.join(VERIF, "evidence")
+# VERIF_SCRATCH redirects work files, replay files and evidence (used when a check is run against a seeded
+# change in a scratch worktree, so that the committed evidence of the real tree is not overwritten)
+_SCR = os.environ.get("VERIF_SCRATCH")
+WORK = os.path.join(_SCR or VERIF, ".work")
+OUT = os.path.join(_SCR or VERIF, "out")
+EVID = os.path.join(_SCR or VERIF, "evidence")
 FINDINGS = os.path.join(VERIF, "findings", "known_findings.json")
 REPO = os.environ.get("VERIF_REPO", "/repo")
 TLA_CP = "/opt/veriftools/tla/tla2tools.jar:/opt/veriftools/tla/CommunityModules-deps.jar"
